@@ -20,6 +20,8 @@ def units(tier):
         us.append(Unit(CE.CEAddEntry, {'n': n}))
     for n in (0, 1, 2):
         us.append(Unit(CE.VDAddRRCEEntry, {'n': n}))
+    for n in (1, 2, 3):
+        us.append(Unit(CE.RemoveChildReleasesCE, {'n': n}))
     for nl in (0, 1, 2, 3):
         for anchors in (0, 2, 3):
             us.append(Unit(CE.SetInode, {'nlinks': nl, 'anchors': anchors}))
